@@ -164,7 +164,7 @@ def scan_trusted(text, origin):
 def run_kani_units(pid, tier, scratch, report, only=None):
     hs = reg.kani_harnesses_for(pid, tier)
     if only:
-        hs = [h for h in hs if h['name'] in only]
+        hs = [h for h in reg.HARNESSES if h['name'] in only]
     if not hs:
         return None
     xt_dir = ku.make_scratch(REPO, scratch)
